@@ -18,6 +18,11 @@ Two further scenario classes use the same clauses as a disjunction (raise + unto
   key-file histories                save; give the root / a sub-configuration / a config type another key file (or use a
                                     sub-configuration on its own first, or move it between roots); change a secret; save
                                     again; a fresh configuration naming the key files in force must load every secret
+  destination names                 names containing $VAR / ${VAR} / %VAR% / ~ / ./ / a/../ / spaces ...: the bytes are in the
+                                    file the name denotes after ~ expansion only, load(the same name) is equal
+                                    (save/post:C19.writes-exactly-the-serialised-bytes)
+  key-file failure histories        malformed key file -> failed save/load -> repair/regenerate -> rotate, on one
+                                    configuration: failed saves leave the destination untouched, the others load back
   document boundary sweep           text of every length 0..300 (all document lengths modulo 256), values beginning or
                                     ending with whitespace / control bytes, at the root and nested, every format:
                                     file == dumps, Config.load(file) and loads(file bytes) equal the saved one
@@ -1075,6 +1080,232 @@ def _sweep_label(case):
 
 
 # ---------------------------------------------------------------------------------------------------------------
+# Destination names: the bytes go to the file the name denotes after `~` expansion ONLY (no variable expansion, no
+# normalisation beyond what open() does), and load(the same name) reads them back
+# ---------------------------------------------------------------------------------------------------------------
+
+OB_WRITES = "core:Config.save/post:C19.writes-exactly-the-serialised-bytes"
+DEST_NAMES = [  # (kind, name template; {ext} is the format name; relative names are relative to the case's work dir)
+    ("dollar-variable", "cfg-$STAGE.{ext}"),
+    ("dollar-brace-variable", "cfg-${{STAGE}}.{ext}"),
+    ("percent-variable", "cfg-%STAGE%.{ext}"),
+    ("dollar-home-prefix", "$HOME/x.{ext}"),
+    ("contains-dollar", "price$.a$b.{ext}"),
+    ("contains-percent", "100%.{ext}"),
+    ("tilde-home", "~/sub/x.{ext}"),
+    ("tilde-not-leading", "x~/y~.{ext}"),
+    ("dot-slash", "./x.{ext}"),
+    ("parent-segment", "a/../x.{ext}"),
+    ("spaces", "my config  file.{ext}"),
+    ("trailing-dot", "x.{ext}."),
+    ("upper-case-extension", "X.{EXT}"),
+    ("absolute-with-dollar-variable", "{abs}/abs-$STAGE.{ext}"),
+]
+
+
+@contextlib.contextmanager
+def _chdir(path):
+    old = os.getcwd()
+    os.chdir(path)
+    try:
+        yield
+    finally:
+        os.chdir(old)
+
+
+def _tree_state(root):
+    """path -> bytes of every regular file under root"""
+    out = {}
+    for d, _dirs, files in os.walk(root):
+        for f in files:
+            path = os.path.join(d, f)
+            with open(path, "rb") as fp:
+                out[os.path.realpath(path)] = fp.read()
+    return out
+
+
+def evaluate_destination(tmp, case):
+    from pyvc.raclib import environ
+    fmt, kind = case["fmt"], case["dest_kind"]
+    work = os.path.join(tmp, "destnames", fmt, kind)
+    os.makedirs(work, exist_ok=True)
+    template = dict(DEST_NAMES)[kind]
+    name = template.format(ext=fmt, EXT=fmt.upper(), abs=work)
+    failures = []
+    with environ(STAGE="prod", HOME=tmp), _chdir(work):
+        expected = os.path.expanduser(name)                      # the only processing save/load document
+        expanded = os.path.expanduser(os.path.expandvars(name))  # what a shell-like expansion would denote instead
+        for path in {expected, expanded}:
+            parent = os.path.dirname(path)
+            if parent:
+                os.makedirs(parent, exist_ok=True)
+        if os.path.dirname(name) == "a/..":
+            os.makedirs("a", exist_ok=True)
+        decoy = None
+        if os.path.realpath(expanded) != os.path.realpath(expected):
+            decoy = os.path.realpath(expanded)
+            with open(decoy, "wb") as fp:
+                fp.write(b"PRE-EXISTING FILE UNDER THE VARIABLE-EXPANDED NAME\n")
+        if os.path.lexists(expected):
+            os.remove(expected)
+        cfg, fresh = build("flat", tmp, variant=1)
+        before = _tree_state(tmp)
+        res = run_save(cfg, name, fmt, {}, None)
+        after = _tree_state(tmp)
+        err = "%s: %s" % (type(res["raised"]).__name__, str(res["raised"])[:80]) if res["raised"] is not None else None
+        target = os.path.realpath(expected)
+        changed = sorted(p for p in set(before) | set(after) if before.get(p) != after.get(p))
+        if res["raised"] is not None:
+            outcome = "failed"
+            failures.append((OB_WRITES, "save(%r, %r) of a valid configuration failed: %s" % (name, fmt, err)))
+        else:
+            outcome = "saved"
+            dumped = res["dumped"][0] if res["dumped"] else None
+            if after.get(target) != dumped or dumped != cfg.dumps(fmt):
+                failures.append((OB_WRITES, "save(%r): the file %s holds %s but dumps returned %s"
+                                 % (name, os.path.relpath(target, tmp), _short(after.get(target)), _short(dumped))))
+            if decoy is not None and after.get(decoy) != before.get(decoy):
+                failures.append((OB_WRITES, "save(%r) changed the pre-existing file under the variable-expanded name %s: now %s"
+                                 % (name, os.path.relpath(decoy, tmp), _short(after.get(decoy)))))
+            others = [os.path.relpath(p, tmp) for p in changed if p != target]
+            if others:
+                failures.append((OB_WRITES, "save(%r) wrote files other than %s: %s" % (name, os.path.relpath(target, tmp), others[:3])))
+            try:
+                fresh().load(name, fmt)
+            except Exception as lerr:
+                failures.append((OB_LOADS_BACK, "load(%r) of the file just saved under the same name failed: %s: %s"
+                                 % (name, type(lerr).__name__, str(lerr)[:90])))
+            else:
+                c2 = fresh()
+                c2.load(name, fmt)
+                diffs = diff_config(cfg, c2)
+                if diffs:
+                    failures.append((OB_LOADS_BACK, "load(%r) differs at %s: saved %s, loaded %s" % ((name,) + diffs[0])))
+    return {"outcome": outcome, "failures": failures, "error": err}
+
+
+# ---------------------------------------------------------------------------------------------------------------
+# Key-file failure histories on ONE configuration: malformed key file -> failed save (destination untouched) ->
+# repaired / regenerated -> save loads back -> rotated -> save loads back with the CURRENT key file
+# ---------------------------------------------------------------------------------------------------------------
+
+KEYFILE_FAILURE_HISTORIES = [  # steps; a 'sub:' prefix applies the step to the sub-configuration's own key file
+    ["bad31", "repair", "rotate"],
+    ["bad33", "regenerate", "rotate"],
+    ["bad0", "repair", "rotate"],
+    ["badload31", "repair", "rotate"],
+    ["badload0", "regenerate", "rotate"],
+    ["bad31", "bad0", "repair", "rotate"],
+    ["bad33", "badload31", "regenerate", "rotate"],
+    ["badload33", "bad31", "repair", "rotate", "rotate"],
+    ["rotate", "bad31", "rotate"],
+    ["sub:bad31", "sub:repair", "sub:rotate"],
+    ["sub:bad0", "sub:regenerate", "sub:rotate"],
+    ["sub:badload33", "sub:repair", "sub:rotate"],
+    ["sub:bad31", "bad33", "sub:repair", "repair", "rotate", "sub:rotate"],
+]
+
+
+def evaluate_keyfile_failure_history(tmp, case):
+    import cincoconfig as cc
+    from cincoconfig.core import Config
+    fmt, method, steps = case["fmt"], case["method"], case["steps"]
+    work = os.path.join(tmp, "keyfail", fmt, method, "-".join(x.replace(":", "_") for x in steps))
+    os.makedirs(work, exist_ok=True)
+    keys = {"root": os.path.join(work, "root.key"), "sub": os.path.join(work, "sub.key")}
+    uses_sub = any(x.startswith("sub:") for x in steps)
+    counter = [0]
+
+    def valid_key():
+        counter[0] += 1
+        return bytes((17 * counter[0] + i) % 256 for i in range(32))
+
+    def write(path, data):
+        with open(path, "wb") as fp:
+            fp.write(data)
+
+    s = cc.Schema()
+    s.user = cc.StringField(default="u")
+    s.password = cc.SecureField(method=method)
+    s.sub.password = cc.SecureField(method=method)
+    ts = cc.Schema()
+    ts.token = cc.SecureField(method=method)
+    s.t = cc.make_type(ts, "Tok")
+
+    def named(c):
+        if uses_sub:
+            c.sub._key_filename = keys["sub"]
+        return c
+
+    def set_secrets(c, tag):
+        c.password = "root-" + tag
+        c.sub.password = "sub-" + tag
+        c.t.token = "tok-" + tag
+
+    write(keys["root"], valid_key())
+    write(keys["sub"], valid_key())
+    cfg = named(Config(s, key_filename=keys["root"]))  # the ONE configuration (and its KeyFile objects) of the history
+    dest = os.path.join(work, "config." + fmt)
+    failures = []
+    trace = []
+
+    def save_step(label, i):
+        before = read_state(dest)
+        res = run_save(cfg, dest, fmt, {}, None)
+        out = _judge_saved_or_untouched(res, cfg, named(Config(s, key_filename=keys["root"])), dest, fmt, before,
+                                        "at step %d (%s) of %s" % (i, label, ">".join(steps)))
+        trace.append("%s:%s" % (label, out["outcome"]))
+        failures.extend(out["failures"])
+        return out["outcome"]
+
+    set_secrets(cfg, "0")
+    if save_step("initial", 0) != "saved":
+        return {"outcome": "initial-save-failed", "failures": failures, "error": ";".join(trace), "effective": False}
+    effective = True  # every step had the outcome the state of the key files implies
+    valid = {"root": True, "sub": True}
+
+    def usable():
+        return valid["root"] and (valid["sub"] or not uses_sub)
+
+    for i, step in enumerate(steps, 1):
+        scope, op = ("sub", step[4:]) if step.startswith("sub:") else ("root", step)
+        path = keys[scope]
+        if op.startswith("badload"):
+            write(path, b"k" * int(op[7:]))
+            valid[scope] = False
+            before = read_state(dest)
+            try:
+                cfg.load(dest, fmt)
+                loaded = "loaded"
+            except Exception:
+                loaded = "load-failed"
+            trace.append("%s:%s" % (step, loaded))
+            effective = effective and loaded == "load-failed"
+            if read_state(dest) != before:
+                failures.append((OB_UNTOUCHED, "step %d (%s): a load changed the destination" % (i, step)))
+            set_secrets(cfg, str(i))  # a failed load may have replaced some values: define them again
+            continue
+        if op.startswith("bad"):
+            write(path, b"k" * int(op[3:]))
+            valid[scope] = False
+        elif op == "repair":
+            write(path, valid_key())
+            valid[scope] = True
+        elif op == "regenerate":
+            os.remove(path)  # the library generates a new key file on the next use
+            valid[scope] = True
+        elif op == "rotate":
+            write(path, valid_key())  # a DIFFERENT valid 32-byte key
+            valid[scope] = True
+        else:
+            raise ValueError(step)
+        set_secrets(cfg, str(i))
+        outcome = save_step(step, i)
+        effective = effective and outcome == ("saved" if usable() else "serialisation-failed")
+    return {"outcome": "history", "failures": failures[:2], "error": ";".join(trace), "effective": effective}
+
+
+# ---------------------------------------------------------------------------------------------------------------
 # Enumeration
 # ---------------------------------------------------------------------------------------------------------------
 
@@ -1129,6 +1360,15 @@ def cases(tier, rng):
                     continue  # a documented coercion of the codec, outside the representable domain (see above)
                 for prior in ("previous-save", "absent"):
                     yield {"unencodable": kind, "holder": holder, "fmt": fmt, "prior": prior}
+    # destination names
+    for kind, _template in DEST_NAMES:
+        for fmt in FORMATS:
+            yield {"dest_kind": kind, "fmt": fmt}
+    # key-file failure histories on one configuration
+    for steps in KEYFILE_FAILURE_HISTORIES:
+        for method in ("xor", "aes"):
+            for fmt in FORMATS:
+                yield {"keyfile_failure_history": True, "steps": steps, "method": method, "fmt": fmt}
     # document boundary sweep
     yield from sweep_cases()
     if tier != "quick":
@@ -1144,6 +1384,10 @@ def cases(tier, rng):
 
 
 def witness_base(case, obligation):
+    if case.get("dest_kind"):
+        return "destination-name:" + case["dest_kind"]
+    if case.get("keyfile_failure_history"):
+        return "keyfile-failure-history:" + ">".join(case["steps"])
     if case.get("keyfile_history"):
         return "keyfile-history:" + case["keyfile_history"].split("/change-")[0]
     if case.get("unencodable"):
@@ -1158,6 +1402,10 @@ def witness_base(case, obligation):
 
 
 def dispatch(tmp, case):
+    if case.get("dest_kind"):
+        return evaluate_destination(tmp, case)
+    if case.get("keyfile_failure_history"):
+        return evaluate_keyfile_failure_history(tmp, case)
     if case.get("sweep"):
         return evaluate_sweep(tmp, case)
     if case.get("history"):
@@ -1191,7 +1439,8 @@ def rac(tier: str, seed: int) -> dict:
              "one fault injected (or none) and spies on Config.dumps/builtins.open; enumerated: configuration kind x "
              "format x formatter options x previous content for successful saves, every applicable (fault, kind, "
              "format, previous content) for failing ones, all 27 ok0/ok1/fault histories per format, every key-file "
-             "history x format, every (un-encodable value kind, holder, format, previous content), the document "
+             "history x format, every (un-encodable value kind, holder, format, previous content), every destination "
+             "name kind x format, every key-file failure history x xor/aes x format, the document "
              "boundary sweep (format x root/nested x text length 0..300, x edge strings, x 256 edge bytes); a fault case is "
              "non-trivial when the save really failed before serialisation returned; witness classes: fault/previous "
              "content, key-file history name, un-encodable value kind, suffixed @format unless all five formats fail",
@@ -1209,8 +1458,13 @@ def rac(tier: str, seed: int) -> dict:
               "outside the representable domain); boundary sweep: 5 formats x 2 places x (301 text lengths, so every "
               "document length modulo 256 incl. BSON length bytes 0x09-0x0d/0x20, + 11 strings beginning/ending with "
               "whitespace/control characters where representable + BytesField with each byte 0..255 at both ends), "
-              "file == dumps, load(file) and loads(bytes) equal; os.urandom replaced by a seeded stream for the duration of the run"
-              % (len(FAULTS), len(keyfile_histories()), len(unencodable_values()), len(HOLDERS)),
+              "file == dumps, load(file) and loads(bytes) equal; %d destination-name kinds ($VAR, ${VAR}, %%VAR%%, "
+              "$HOME/..., bare $ and %%, ~/..., ./, a/../, spaces, trailing dot, upper-case extension) with STAGE and HOME "
+              "set and a decoy under the variable-expanded name; %d key-file failure histories of 3-6 steps (malformed "
+              "31/33/0-byte key file before a save or a load, repair, regeneration, rotation; root or sub-configuration "
+              "key file) on one configuration; os.urandom replaced by a seeded stream for the duration of the run"
+              % (len(FAULTS), len(keyfile_histories()), len(unencodable_values()), len(HOLDERS), len(DEST_NAMES),
+                 len(KEYFILE_FAILURE_HISTORIES)),
         tier=tier, seed=seed)
     pending = {}  # (obligation, base key) -> {fmt: (what, replay)}
     with sandbox() as tmp, mock.patch.object(os, "urandom", _DetRandom(seed)):
@@ -1232,12 +1486,19 @@ def rac(tier: str, seed: int) -> dict:
             elif case.get("sweep"):
                 key = ("sweep", case["fmt"], case["place"], case.get("n"), case.get("edge"))
                 nontrivial = res["outcome"] == "saved"
+            elif case.get("dest_kind"):
+                key = ("destination-name", case["dest_kind"], case["fmt"])
+                nontrivial = res["outcome"] == "saved"
+            elif case.get("keyfile_failure_history"):
+                key = ("keyfile-failure-history", tuple(case["steps"]), case["method"], case["fmt"])
+                nontrivial = res["effective"]  # every failing step really failed, every other save succeeded
             else:
                 key = (case["kind"], case["fmt"], case["prior"], case.get("fault"), json.dumps(case.get("kw") or {}, sort_keys=True),
                        case.get("dest", ""), case.get("variant", 1))
                 nontrivial = (res["outcome"] == "serialisation-failed") if case.get("fault") else (res["outcome"] == "saved")
             sample = None
-            if (i % 211 == 0 and not case.get("sweep")) or (case.get("fault") and i % 97 == 0) \
+            if (i % 211 == 0 and not case.get("sweep")) or (case.get("keyfile_failure_history") and i % 53 == 0) \
+                    or (case.get("dest_kind") and i % 29 == 0) or (case.get("fault") and i % 97 == 0) \
                     or (case.get("keyfile_history") and i % 41 == 0) or (case.get("sweep") and i % 1999 == 0):
                 sample = dict(case, outcome=res["outcome"], error=res["error"])
             rec.case(key=key, nontrivial=nontrivial, sample=sample)
@@ -1276,6 +1537,11 @@ def replay(case: dict) -> dict:
                     "fresh configuration naming the same key files loads the file back equal")
     elif case.get("unencodable"):
         expected = "the save raises and leaves the destination untouched, or succeeds and the file loads back equal"
+    elif case.get("dest_kind"):
+        expected = "the bytes are in the file the name denotes after ~ expansion only, nothing else changes, load(name) is equal"
+    elif case.get("keyfile_failure_history"):
+        expected = ("every save with a malformed key file fails and leaves the destination untouched; every other save writes "
+                    "what dumps returned and loads back in a fresh configuration reading the current key file")
     elif case.get("sweep"):
         expected = "the file holds exactly what dumps returned; Config.load(file) and loads(file bytes) give an equal configuration"
     elif case.get("fault"):
